@@ -314,12 +314,22 @@ using Widen = std::conditional_t<
                        std::conditional_t<std::is_signed<T>::value, std::intmax_t, std::uintmax_t>>,
     T>;
 
+// Whether the product of two positive numbers is too big for the type.
+//
+// A factor which does not exceed 1 cannot make the product overflow.  Answering that case first
+// also keeps the quotient below in range: for a floating point `b < 1` it would overflow itself,
+// which is not permitted inside a constant expression.
+template <typename T>
+constexpr bool product_exceeds_max(T a, T b) {
+    return (a > T{1}) && (b > T{1}) && (a > std::numeric_limits<T>::max() / b);
+}
+
 template <typename T>
 constexpr MagRepresentationOrError<T> checked_int_pow(T base, std::uintmax_t exp) {
     MagRepresentationOrError<T> result = {MagRepresentationOutcome::OK, T{1}};
     while (exp > 0u) {
         if (exp % 2u == 1u) {
-            if (base > std::numeric_limits<T>::max() / result.value) {
+            if (product_exceeds_max(base, result.value)) {
                 return MagRepresentationOrError<T>{MagRepresentationOutcome::ERR_CANNOT_FIT};
             }
             result.value *= base;
@@ -327,7 +337,7 @@ constexpr MagRepresentationOrError<T> checked_int_pow(T base, std::uintmax_t exp
 
         exp /= 2u;
 
-        if (base > std::numeric_limits<T>::max() / base) {
+        if (product_exceeds_max(base, base)) {
             return (exp == 0u)
                        ? result
                        : MagRepresentationOrError<T>{MagRepresentationOutcome::ERR_CANNOT_FIT};
